@@ -164,9 +164,12 @@ def child_classes(f, body=None, recvs=None):
                 lits |= hl
                 pnames = [(p.get("pat") or {}).get("v", "").split("#")[0] for p in h.get("params", [])]
                 for rp in hrecv:
+                    # (element accessors `<index>` / `<get>` / `*` at the end of a path name an element, not another container)
+                    while rp and (str(rp[-1]).startswith("<") or rp[-1] == "*"):
+                        rp = rp[:-1]
                     if rp and rp[0] in pnames and pnames.index(rp[0]) < len(x["args"]):
                         recvs.add(recv_path(f, x["args"][pnames.index(rp[0])]) + tuple(rp[1:]))
-                    else:
+                    elif rp:
                         recvs.add(rp)
             elif c == "savefile::Introspect::introspect_child" and len(x["args"]) == 2 and var_of(x["args"][1]) in derived:
                 out.add(("delegate", x.get("self_ty")))
